@@ -1,5 +1,6 @@
 SPECIFICATION Spec
 CONSTANTS
+  PinnedPopSentinel = FALSE
   PinnedCtorNone = FALSE
   KeepOldKey = FALSE
   MoveToEnd = FALSE
@@ -13,7 +14,9 @@ CONSTANTS
   NV = 2
   ValU = {1, 2}
   MaxPairs = 2
+  MaxPairsAlt = 1
   GenDepth = 0
+  GenMax = 0
 INVARIANT ImplRefinesReq
 INVARIANT ReqWellFormed
 INVARIANT MappingHolds
